@@ -23,13 +23,13 @@ STUB_HARNESSES = [
 PROPS = {
     'C01': dict(units=['core_all', 'route'], level='proof'),
     'C02': dict(units=['core_all', 'events', 'route'], level='proof'),
-    'C03': dict(units=['core_all', 'route'], level='proof', kani=[
+    'C03': dict(units=['core_all', 'route', 'reg'], level='proof', kani=[
         K('lemma_score_gt_neg1', 'C03.kani.lemma.score_of_a_connected_candidate_exceeds_the_start_score', kind='lemma'),
         K('lemma_one_is_q_ok', 'C03.kani.lemma.default_quality_is_in_range', kind='lemma'),
         K('quality_multiplier_range', 'C03.kani.quality_multiplier_in_035_12'),
         K('soft_cap_range', 'C03.kani.soft_cap_factor_in_01_1'),
     ]),
-    'C04': dict(units=['core_all', 'route', 'reg'], level='proof'),
+    'C04': dict(units=['core_all', 'route', 'reg', 'events'], level='proof'),
     'C11': dict(units=['core_all', 'conns'], level='proof', kani=[
         K('quality_multiplier_range', 'C11.kani.quality_multiplier_in_035_to_11x103'),
         K('soft_cap_range', 'C11.kani.soft_cap_factor_in_01_1'),
@@ -45,7 +45,7 @@ PROPS = {
         K('window_recovery_contract', 'C06.kani.time_based_recovery_in_range_never_decreases_at_most_120_fast_recovery_left_at_12000',
           note='alloc::fmt::format stubbed (debug-only string on the growth path)'),
     ]),
-    'C08': dict(units=['core_all', 'hk', 'events', 'drain', 'conns'], level='proof'),
+    'C08': dict(units=['core_all', 'hk', 'events', 'drain', 'conns', 'ctl'], level='proof'),
     'C12': dict(units=['core_all', 'events', 'drain', 'route'], level='proof'),
     'C13': dict(units=['core_all', 'events'], level='proof', kani=[
         K('effective_stall_window_formula', 'C13.kani.effective_window_is_clamp_4srtt_1000_ceiling_and_pull_window_below_it'),
@@ -71,10 +71,10 @@ PROPS = {
         K('cc_tick_grows_only_when_climbing_and_never_beyond_2x_measured', 'C16.kani.tick.grows_only_when_climbing_and_never_beyond_twice_the_measured_rate', tier='thorough',
           note='comparison-only clauses; about 2 min of CBMC'),
     ]),
-    'C17': dict(units=['cls', 'core_all'], level='proof'),
+    'C17': dict(units=['cls', 'core_all', 'events'], level='proof'),
     'C18': dict(units=['ctl'], level='proof',
                 not_covered=['control_socket.rs line framing (tokio::select! loop)', 'concurrent setters and snapshot readers (atomics sequentialised)', 'serde_json itself (parsing, typed accessors, Response::to_json)', 'subscription handlers']),
-    'C19': dict(units=['reload', 'events', 'conns'], level='proof'),
+    'C19': dict(units=['reload', 'events', 'conns', 'hk', 'core_all'], level='proof'),
     'C15': dict(
         kani=[K('reg_packets_layout', 'C15.kani.reg1_reg2_are_258_bytes_type_plus_id'),
               K('keepalive_roundtrip', 'C15.kani.keepalive_decodes_back', note='8-iteration loop fully unwound (unwind 9, unwinding assertions on)'),
